@@ -126,8 +126,12 @@ def good_delaunay(draw, height=True):
 
 
 def any_surface():
-    return st.one_of(G.well_shaped_trisurf(max_faces=60), G.well_shaped_trisurf(max_faces=60, bordered=True), panels(), panels(roof=True),
-                     good_delaunay())
+    return st.one_of(G.well_shaped_trisurf(max_faces=60, bordered=False), G.well_shaped_trisurf(max_faces=60, bordered=False, closed_bases=("icosa", "torus", "antiprism")),
+                     G.well_shaped_trisurf(max_faces=60, bordered=True), panels(), panels(min_size=2), panels(roof=True, min_size=2),
+                     panels(roof=True), good_delaunay())
+
+
+ORDERS = st.sampled_from([4, 2, 1, 3, 6, 5])
 
 
 ALPHAS = [1e-3, 0.05, 1.0, 7.5]
@@ -137,7 +141,7 @@ ALPHAS = [1e-3, 0.05, 1.0, 7.5]
 def field_case(draw):
     s = draw(any_surface())
     elements = draw(st.sampled_from(["vertices", "faces"]))
-    c = {"V": s["V"], "F": s["F"], "tags": s["tags"], "elements": elements, "order": draw(st.integers(1, 6)),
+    c = {"V": s["V"], "F": s["F"], "tags": s["tags"], "elements": elements, "order": draw(ORDERS),
          "features": draw(st.booleans()), "n_smooth": draw(st.sampled_from([0, 0, 1, 2, 3])),
          "alpha": draw(st.sampled_from(ALPHAS)), "cotan": draw(st.booleans()),
          "smooth_normals": draw(st.booleans()), "cad": False}
@@ -154,7 +158,7 @@ def renumber_case(draw, elements):
                            good_delaunay()))
     else:
         s = draw(st.one_of(panels(), panels(roof=True), G.well_shaped_trisurf(max_faces=60, bordered=True), good_delaunay()))
-    return {"V": s["V"], "F": s["F"], "tags": s["tags"], "elements": elements, "order": draw(st.integers(1, 6)),
+    return {"V": s["V"], "F": s["F"], "tags": s["tags"], "elements": elements, "order": draw(ORDERS),
             "features": draw(st.booleans()), "n_smooth": draw(st.sampled_from([0, 0, 1, 2])),
             "alpha": draw(st.sampled_from(ALPHAS)), "cotan": draw(st.booleans()),
             "smooth_normals": draw(st.booleans()), "cad": False, "perm_seed": draw(st.integers(0, 10 ** 6))}
@@ -172,7 +176,7 @@ def laplacian_case(draw):
             s = dict(s, V=V)
     else:
         s = draw(any_surface())
-    return {"V": s["V"], "F": s["F"], "tags": s["tags"], "planar": bool(planar), "order": draw(st.integers(1, 6)),
+    return {"V": s["V"], "F": s["F"], "tags": s["tags"], "planar": bool(planar), "order": draw(ORDERS),
             "cotan": draw(st.booleans()), "flip": draw(st.booleans())}
 
 
@@ -725,4 +729,29 @@ SUBCHECKS = [
     SubCheck("laplacian", laplacian_case(), fn_laplacian, quick=64, thorough=300),
 ]
 
-MATCHERS = {}
+def kf_smooth_normals_crease_numbering(case, violation):
+    """Vertex field, smooth_normals=True, even order, features on, an *interior* vertex on a sharp crease: the constraint there
+    is computed from the edge projected on the tangent plane (embedding metric) while the solver works in the connection's
+    rescaled intrinsic metric, so the constraint seen by the solver depends on which edge is the vertex's reference edge."""
+    if violation.sub_check != "renumber_vertices":
+        return False
+    if violation.signature not in ("constraints-depend-on-numbering", "field-depends-on-numbering"):
+        return False
+    if case["elements"] != "vertices" or not case["smooth_normals"] or int(case["order"]) % 2 != 0:
+        return False
+    if not (case["features"] or case["cad"]):
+        return False
+    V, F = case["V"], case["F"]
+    ref = SurfRef(len(V), F)
+    N = face_normals(V, F)
+    bv = ref.border_vertices()
+    for (a, b) in ref.uedges:
+        f1, f2 = ref.direct_face(a, b), ref.direct_face(b, a)
+        if f1 is None or f2 is None:
+            continue
+        if float(np.dot(N[f1], N[f2])) < 0.5 and (a not in bv or b not in bv):
+            return True
+    return False
+
+
+MATCHERS = {"kf_smooth_normals_crease_numbering": kf_smooth_normals_crease_numbering}
